@@ -179,3 +179,11 @@ Proof.
   - intros [H1 H2]. constructor; auto.
   - intros H. inversion H; auto.
 Qed.
+
+Lemma NoDup_seqn n : NoDup (seqn n).
+Proof.
+  induction n as [|n IH]; simpl; [constructor|].
+  apply NoDup_app_intro; auto.
+  - constructor; [intros []|constructor].
+  - intros x Hx [->|[]]. apply In_seqn in Hx. lia.
+Qed.
